@@ -261,4 +261,244 @@ theorem year_context_fold_facts (a b : Int) (ha : a ≠ invalidYear) (hb : b ≠
   have e4 : (b != a) = true := by simpa using (Ne.symm hab)
   simp [yearContextFold, e1, e2, e3, e4, ha, hb, hab, Ne.symm hab]
 
+/-! ## `_parse_base_date_period`: the order of the sub-parsers -/
+
+/-- Every sub-parser before position `i` said "no result" -/
+def allNoResultBefore (outs : List Out) (i : Nat) : Prop := ∀ j, j < i → outs[j]? = some .noResult
+
+/-- The chain, for ANY outcomes of the sixteen sub-parsers: the answer is that of the FIRST sub-parser in the list that
+does not say "no result" — its success, or its exception (later ones are not consulted); "no result" only when all say
+so. `answerIndex` is the position of the answering success. -/
+theorem first_success_spec (outs : List Out) :
+    (∃ i o, outs[i]? = some o ∧ o ≠ .noResult ∧ allNoResultBefore outs i ∧ firstSuccess outs = o ∧
+      answerIndex outs = (if o = .raises then none else some i)) ∨
+    ((∀ o ∈ outs, o = .noResult) ∧ firstSuccess outs = .noResult ∧ answerIndex outs = none) := by
+  induction outs with
+  | nil => right; simp [firstSuccess, answerIndex]
+  | cons o rest ih =>
+    cases o with
+    | raises =>
+      left; exact ⟨0, .raises, rfl, by simp, fun j hj => by omega, rfl, by simp [answerIndex]⟩
+    | ok t v m =>
+      left; exact ⟨0, .ok t v m, rfl, by simp, fun j hj => by omega, rfl, by simp [answerIndex]⟩
+    | noResult =>
+      rcases ih with ⟨i, o, h1, h2, h3, h4, h5⟩ | ⟨h1, h2, h3⟩
+      · left
+        refine ⟨i + 1, o, by simpa using h1, h2, ?_, by simpa [firstSuccess] using h4, ?_⟩
+        · intro j hj
+          cases j with
+          | zero => rfl
+          | succ k => simpa using h3 k (by omega)
+        · simp only [answerIndex, h5]
+          by_cases c : o = .raises <;> simp [c]
+      · right
+        refine ⟨?_, by simpa [firstSuccess] using h2, by simp [answerIndex, h3]⟩
+        intro o ho
+        simp only [List.mem_cons] at ho
+        rcases ho with rfl | ho
+        · rfl
+        · exact h1 o ho
+
+/-- the order is the one of the code, sixteen sub-parsers -/
+theorem sub_order_facts : Sub.order.length = 16 ∧ Sub.order.head? = some .monthWithYear ∧ Sub.order[3]? = some .mergeTwoTimePoints ∧
+    Sub.order[13]? = some .decade ∧ Sub.order.getLast? = some .duration ∧ Sub.order.Nodup := by
+  refine ⟨rfl, rfl, rfl, rfl, rfl, by decide⟩
+
+/-- The order is observable (so a reordering is caught by the correspondence): on "may of next year" asked on 2020-03-15
+`__parse_month_with_year` (position 0) and `_parse_duration` (position 15: "next year" as a duration) BOTH succeed with
+different answers; the chain gives the month, the swapped chain would give the year-long range. -/
+theorem order_observable_witness :
+    let a : Out := .ok ("2021-05".toList.map Char.toNat) (some ⟨⟨⟨2021, 5, 1⟩, 0⟩, ⟨⟨2021, 6, 1⟩, 0⟩, ⟨⟨2021, 5, 1⟩, 0⟩, ⟨⟨2021, 6, 1⟩, 0⟩⟩) []
+    let d : Out := .ok ("(2020-03-16,2021-03-16,P1Y)".toList.map Char.toNat)
+      (some ⟨⟨⟨2020, 3, 16⟩, 36000⟩, ⟨⟨2021, 3, 16⟩, 36000⟩, ⟨⟨2020, 3, 16⟩, 36000⟩, ⟨⟨2021, 3, 16⟩, 36000⟩⟩) []
+    firstSuccess ([a] ++ List.replicate 14 .noResult ++ [d]) = a ∧ answerIndex ([a] ++ List.replicate 14 .noResult ++ [d]) = some 0 ∧
+    firstSuccess ([d] ++ List.replicate 14 .noResult ++ [a]) = d ∧ a ≠ d := by
+  refine ⟨?_, ?_, ?_, ?_⟩ <;> decide +kernel
+
+/-- The context step at the end of `_parse_base_date_period`: without a context (or with an empty one) the chain's answer
+is returned as it is, its values stay lists; with a year they are re-dated and become dicts. -/
+theorem parse_base_context (outs : List Out) :
+    parseBaseDatePeriod outs none = (match firstSuccess outs with | .raises => none | o => some (o, false)) ∧
+    parseBaseDatePeriod outs (some invalidYear) = (match firstSuccess outs with | .raises => none | o => some (o, false)) := by
+  unfold parseBaseDatePeriod
+  cases firstSuccess outs <;> simp [processDatePeriod, ctxEmpty]
+
+/-! ## `parse`: assembly -/
+
+/-- `parse`: a success of `_parse_base_date_period` is final (the complex parser is not consulted); `timex_str` is the
+result's TIMEX; the resolution dicts are `format_date` of the four values; another extract type gives no value. -/
+theorem parse_assembly (t : Str) (v : Vals) (m : Str) (complex : Out) :
+    parseTop true (.ok t (some v) m) complex =
+      some ⟨true, t, some (formatDate v.fb.date, formatDate v.fe.date), some (formatDate v.pb.date, formatDate v.pe.date), m⟩ ∧
+    parseTop true .noResult (.ok t (some v) m) = parseTop true (.ok t (some v) m) .noResult ∧
+    parseTop true .noResult .noResult = some ⟨false, [], none, none, []⟩ ∧
+    parseTop true .raises complex = none ∧ parseTop true .noResult .raises = none ∧
+    parseTop false (.ok t (some v) m) complex = some ⟨false, [], none, none, []⟩ := by
+  refine ⟨?_, ?_, ?_, ?_, ?_, ?_⟩ <;> simp [parseTop]
+
+/-! ## `__parse_decade` -/
+
+/-- The tree's `__parse_decade` never succeeds (whatever the two regex outcomes): decades are extracted and stay
+unresolved. -/
+theorem decade_unported_never_succeeds (a b : Bool) : (parseDecade a b).success = false := by
+  cases a <;> cases b <;> rfl
+
+/-- The repaired computation, a decade with its century in the text ("the 1990s": `firstTwo = 19`, `decade = 90`), for
+EVERY reference and every begin year 2 … 9989: `[Jan 1 of the decade, Jan 1 ten years later)` in the future and in the
+past value, TIMEX `(begin,end,P10Y)` satisfying `tripleOK`, a well-formed range. -/
+theorem decade_fixed_century (R : DateTime) (c d : Nat) (h1 : 2 ≤ c * 100 + d) (h2 : c * 100 + d + 10 ≤ 9999) :
+    decadeFixed R (.century c d) =
+      .ok (dateTriple ⟨c * 100 + d, 1, 1⟩ ⟨c * 100 + d + 10, 1, 1⟩ 10 89)
+        ⟨⟨c * 100 + d, 1, 1⟩, 0⟩ ⟨⟨c * 100 + d + 10, 1, 1⟩, 0⟩ ⟨⟨c * 100 + d, 1, 1⟩, 0⟩ ⟨⟨c * 100 + d + 10, 1, 1⟩, 0⟩ ∧
+    tripleOK (dateTriple ⟨c * 100 + d, 1, 1⟩ ⟨c * 100 + d + 10, 1, 1⟩ 10 89)
+      (some (formatDate ⟨c * 100 + d, 1, 1⟩)) (some (formatDate ⟨c * 100 + d + 10, 1, 1⟩)) = true ∧
+    rangeOK ⟨⟨c * 100 + d, 1, 1⟩, 0⟩ ⟨⟨c * 100 + d + 10, 1, 1⟩, 0⟩ := by
+  generalize hY : c * 100 + d = Y at *
+  have vb := valid_jan1 Y (by omega) (by omega)
+  have ve := valid_jan1 (Y + 10) (by omega) (by omega)
+  refine ⟨?_, date_triple_ok _ _ vb ve 10 89 .Y (by simp) ⟨by simp only; omega, rfl, rfl⟩,
+    vb, ve, ord_lt_of_lexLt _ _ vb ve (Or.inl (by simp)), ne_min_of_year _ (by simp only; omega), ne_min_of_year _ (by simp only; omega)⟩
+  unfold decadeFixed
+  have e0 : ((c : Int) * 100 + (d : Int)) = ((Y : Nat) : Int) := by omega
+  have e1 : (((Y : Nat) : Int) + 10) = (((Y + 10 : Nat)) : Int) := by omega
+  simp only [e0, show ((1 : Int) == 0) = false from rfl, Bool.false_eq_true, if_false, Int.natAbs_one, Bool.not_true, Bool.false_and,
+    show (10 : Int) * ((1 : Nat) : Int) = 10 from rfl, e1, luis_some, mk_valid Y 1 1 vb, mk_valid (Y + 10) 1 1 ve, intStr10]
+  simp [dateTriple]
+
+/-- Without a century ("the nineties" asked in 2020): the TIMEX keeps the century open, the future value is the next
+such decade, the past value the previous one; "the next decade" asked in 2020 is 2030–2040. -/
+theorem decade_fixed_examples :
+    decadeFixed ⟨⟨2020, 3, 15⟩, 36000⟩ (.bare 90) =
+      .ok ("(XX90-01-01,XX100-01-01,P10Y)".toList.map Char.toNat) ⟨⟨2090, 1, 1⟩, 0⟩ ⟨⟨2100, 1, 1⟩, 0⟩ ⟨⟨1990, 1, 1⟩, 0⟩ ⟨⟨2000, 1, 1⟩, 0⟩ ∧
+    decadeFixed ⟨⟨2020, 3, 15⟩, 36000⟩ (.relative 1) =
+      .ok ("(2030-01-01,2040-01-01,P10Y)".toList.map Char.toNat) ⟨⟨2030, 1, 1⟩, 0⟩ ⟨⟨2040, 1, 1⟩, 0⟩ ⟨⟨2030, 1, 1⟩, 0⟩ ⟨⟨2040, 1, 1⟩, 0⟩ ∧
+    decadeFixed ⟨⟨2020, 3, 15⟩, 36000⟩ (.relative (-2)) =
+      .ok ("(2000-01-01,2020-01-01,P20Y)".toList.map Char.toNat) ⟨⟨2000, 1, 1⟩, 0⟩ ⟨⟨2020, 1, 1⟩, 0⟩ ⟨⟨2000, 1, 1⟩, 0⟩ ⟨⟨2020, 1, 1⟩, 0⟩ := by
+  refine ⟨?_, ?_, ?_⟩ <;> decide +kernel
+
+/-! ## `_parse_complex_date_period` -/
+
+/-- "from May to July 2020" (no single date on either side; each side a month period as `_parse_one_word_period`
+answers it for ANY reference: TIMEX without a `-W`, begin on the 1st of the month in whatever year; one year `Y` in the
+text, 1000 ≤ Y ≤ 9999, `m1 < m2`): the result is `[1st of m1 in Y, 1st of m2 in Y)` in both values, TIMEX
+`(Y-m1-01,Y-m2-01,P<m2−m1>M)`, `tripleOK` holds and the range is well formed. -/
+theorem complex_months_year_context (Y m1 m2 : Nat) (hY1 : 1000 ≤ Y) (hY2 : Y ≤ 9999) (a1 : 1 ≤ m1) (a2 : m1 < m2) (a3 : m2 ≤ 12)
+    (t1 t2 : Str) (v1 v2 : Vals) (mod1 mod2 : Str)
+    (hw1 : hasSub (setTimexWithContext t1 (Y : Int)) [45, 87] = false) (hw2 : hasSub (setTimexWithContext t2 (Y : Int)) [45, 87] = false)
+    (hf1 : v1.fb.date.m = m1 ∧ v1.fb.date.d = 1 ∧ v1.fb ≠ DateUtils.minValue) (hp1 : v1.pb.date.m = m1 ∧ v1.pb.date.d = 1 ∧ v1.pb ≠ DateUtils.minValue)
+    (hf2 : v2.fb.date.m = m2 ∧ v2.fb.date.d = 1 ∧ v2.fb ≠ DateUtils.minValue) (hp2 : v2.pb.date.m = m2 ∧ v2.pb.date.d = 1 ∧ v2.pb ≠ DateUtils.minValue) :
+    complexDatePeriod true (Y : Int) ⟨.noDate, .ok t1 (some v1) mod1⟩ ⟨.noDate, .ok t2 (some v2) mod2⟩ =
+      .ok (dateTriple ⟨Y, m1, 1⟩ ⟨Y, m2, 1⟩ (m2 - m1) 77) ⟨⟨Y, m1, 1⟩, 0⟩ ⟨⟨Y, m2, 1⟩, 0⟩ ⟨⟨Y, m1, 1⟩, 0⟩ ⟨⟨Y, m2, 1⟩, 0⟩ ∧
+    tripleOK (dateTriple ⟨Y, m1, 1⟩ ⟨Y, m2, 1⟩ (m2 - m1) 77) (some (formatDate ⟨Y, m1, 1⟩)) (some (formatDate ⟨Y, m2, 1⟩)) = true ∧
+    rangeOK ⟨⟨Y, m1, 1⟩, 0⟩ ⟨⟨Y, m2, 1⟩, 0⟩ := by
+  have ne : ctxEmpty (Y : Int) = false := by simp [ctxEmpty, invalidYear] <;> omega
+  have w1 := valid_first Y m1 (by omega) hY2 a1 (by omega)
+  have w2 := valid_first Y m2 (by omega) hY2 (by omega) a3
+  have sd : ∀ (x : DateTime) (m : Nat), x.date.m = m ∧ x.date.d = 1 ∧ x ≠ DateUtils.minValue →
+      (⟨Y, m, 1⟩ : Date).valid = true → setDateWithContext (Y : Int) x = ⟨⟨Y, m, 1⟩, 0⟩ := by
+    intro x m hx hv
+    unfold setDateWithContext
+    rw [if_neg hx.2.2]
+    simp only [show ((-1 : Int) == -1) = true from rfl, if_true, hx.1, hx.2.1]
+    unfold safeCreateFromMinValue
+    exact safeCreate_ymd _ _ _ hv
+  have ff := first_to_first_ok Y m1 Y m2 (m2 - m1) (by omega) hY2 a1 (by omega) (by omega) a3 (by omega) (by omega)
+  refine ⟨?_, ff.1, ff.2⟩
+  have lt0 : DateTime.lt ⟨⟨Y, m2, 1⟩, 0⟩ ⟨⟨Y, m1, 1⟩, 0⟩ = false := by
+    have := ff.2.2.2.1
+    rw [← Bool.not_eq_true, lt_iff]; simp only at this ⊢; omega
+  have cnt : Periods.intStr (((Y : Int) - (Y : Int)) * 12 + ((m2 : Int) - (m1 : Int))) = natStr (m2 - m1) := by
+    unfold Periods.intStr; rw [if_neg (by omega)]; congr 1; omega
+  unfold complexDatePeriod resolveEnd parseSingleTimePoint processDatePeriod
+  simp only [Bool.not_true, Bool.false_eq_true, if_false, ne, sd _ _ hf1 w1, sd _ _ hp1 w1, sd _ _ hf2 w2, sd _ _ hp2 w2, hw1, hw2,
+    Option.getD_some, lt0, Bool.or_self, Bool.or_false]
+  unfold generateDatePeriodTimex
+  simp only [beq_self_eq_true, if_true, show ((2 : Nat) == 0) = false from rfl, show ((2 : Nat) == 1) = false from rfl, Bool.false_eq_true,
+    if_false, cnt, luisOf]
+  simp [dateTriple]
+
+/-- the hypotheses are met by what `_parse_one_word_period` answers for "may" / "july" -/
+example : hasSub (setTimexWithContext ("XXXX-05".toList.map Char.toNat) 2020) [45, 87] = false := by decide
+
+/-- Witnesses. (1) A week-of-month end under a year context ("from first week of may to second week of june 2020" asked
+on 2019-03-15): month and day of the Mondays computed for 2019 (future) and 2018 (past) are COPIED into 2020 — neither
+2020-05-06 nor 2020-05-07 is a Monday, the past value (2020-05-07) is not even the TIMEX's begin, and the week count is
+the float `5.0` (the recorded finding `period2:complex:week-of-month-year-context`). (2) Without a year in the text the
+period branch raises (`.get` on a list). (3) A complex match whose two sides resolve to nothing still "succeeds", with
+the marker date on both ends. -/
+theorem complex_witnesses :
+    complexDatePeriod true 2020
+        ⟨.noDate, .ok ("XXXX-05-W01".toList.map Char.toNat) (some ⟨⟨⟨2019, 5, 6⟩, 0⟩, ⟨⟨2019, 5, 13⟩, 0⟩, ⟨⟨2018, 5, 7⟩, 0⟩, ⟨⟨2018, 5, 14⟩, 0⟩⟩) []⟩
+        ⟨.noDate, .ok ("XXXX-06-W02".toList.map Char.toNat) (some ⟨⟨⟨2019, 6, 10⟩, 0⟩, ⟨⟨2019, 6, 17⟩, 0⟩, ⟨⟨2018, 6, 11⟩, 0⟩, ⟨⟨2018, 6, 18⟩, 0⟩⟩) []⟩ =
+      .ok ("(2020-05-06,2020-06-10,P5.0W)".toList.map Char.toNat) ⟨⟨2020, 5, 6⟩, 0⟩ ⟨⟨2020, 6, 10⟩, 0⟩ ⟨⟨2020, 5, 7⟩, 0⟩ ⟨⟨2020, 6, 11⟩, 0⟩ ∧
+    (⟨2020, 5, 6⟩ : Date).isoWeekday = 3 ∧ (⟨2020, 5, 4⟩ : Date).isoWeekday = 1 ∧
+    complexDatePeriod true invalidYear
+        ⟨.noDate, .ok ("XXXX-05".toList.map Char.toNat) (some ⟨⟨⟨2019, 5, 1⟩, 0⟩, ⟨⟨2019, 6, 1⟩, 0⟩, ⟨⟨2018, 5, 1⟩, 0⟩, ⟨⟨2018, 6, 1⟩, 0⟩⟩) []⟩
+        ⟨.noDate, .noResult⟩ = .raises ∧
+    complexDatePeriod true 2020 ⟨.noDate, .noResult⟩ ⟨.noDate, .noResult⟩ =
+      .ok ("(0001-01-01,0001-01-01,P0M)".toList.map Char.toNat) DateUtils.minValue DateUtils.minValue DateUtils.minValue DateUtils.minValue := by
+  refine ⟨?_, ?_, ?_, ?_, ?_⟩ <;> decide +kernel
+
+/-! ## `__parse_month_of_date`, `__parse_week_of_date` -/
+
+/-- "the month of <date>": `[1st of the month, 1st of the next month)` for a seed in January … November of a year
+1 … 9999. -/
+theorem month_range_ok (seed : DateTime) (hv : seed.date.valid = true) (hm : seed.date.m ≤ 11) :
+    monthRangeFromDate seed = (⟨⟨seed.date.y, seed.date.m, 1⟩, 0⟩, ⟨⟨seed.date.y, seed.date.m + 1, 1⟩, 0⟩) ∧
+    (⟨seed.date.y, seed.date.m, 1⟩ : Date).ord < (⟨seed.date.y, seed.date.m + 1, 1⟩ : Date).ord := by
+  have a := (valid_iff _).1 hv
+  have w1 := valid_first seed.date.y seed.date.m a.1 a.2.1 a.2.2.1 (by omega)
+  have w2 := valid_first seed.date.y (seed.date.m + 1) a.1 a.2.1 (by omega) (by omega)
+  refine ⟨?_, ord_lt_of_lexLt _ _ w1 w2 (Or.inr ⟨rfl, Or.inl (by simp)⟩)⟩
+  unfold monthRangeFromDate
+  have := safeCreate_ymd _ _ _ w1
+  have := safeCreate_ymd _ _ _ w2
+  unfold safeCreateFromMinValue at *
+  simp [*]
+
+/-- … and for a seed in December the end is month 13 of the same year: not a date, the marker comes back
+("month of december 15th 2020" is emitted as 'not resolved'). -/
+theorem month_range_december (seed : DateTime) (hm : seed.date.m = 12) :
+    (monthRangeFromDate seed).2 = DateUtils.minValue := by
+  unfold monthRangeFromDate safeCreateFromValue
+  have : isValidDate (seed.date.y : Int) (seed.date.m + 1) 1 = false := by
+    have hv' : (⟨seed.date.y, seed.date.m + 1, 1⟩ : Date).valid = false := by
+      rw [← Bool.not_eq_true, valid_iff]; simp only; omega
+    unfold isValidDate
+    simp [hv']
+  simp [this]
+
+/-! ## `inclusive_end_period` -/
+
+/-- The flag off is the code modelled in `Periods`. -/
+theorem inclusive_off (R : DateTime) (m : Nat) (y : Option Int) (sw : Int) (yr : Int) (c : Int) (ny : Bool) (mode : DurMode) (u : PerUnit) (n : Nat) :
+    monthWithYearI false R m y sw = monthWithYear R m y sw ∧ parseYearI false yr = parseYear yr ∧
+    getWeekOfMonthI false R c m yr ny = getWeekOfMonth R c m yr ny ∧ durationPeriodI false R mode u n = durationPeriod R mode u n := by
+  refine ⟨rfl, rfl, rfl, ?_⟩
+  unfold durationPeriodI
+  cases durationPeriod R mode u n <;> rfl
+
+/-- The flag on: a year is `[Jan 1, Dec 31]` (for every year 1 … 9998) -/
+theorem parse_year_inclusive (y : Nat) (h1 : 1 ≤ y) (h2 : y ≤ 9998) :
+    parseYearI true (y : Int) = .ok (pad4 y) ⟨⟨y, 1, 1⟩, 0⟩ ⟨⟨y, 12, 31⟩, 0⟩ ⟨⟨y, 1, 1⟩, 0⟩ ⟨⟨y, 12, 31⟩, 0⟩ := by
+  have v0 := valid_jan1 y h1 (by omega)
+  have v1 := valid_jan1 (y + 1) (by omega) (by omega)
+  have vd := valid_dec31 y h1 (by omega)
+  unfold parseYearI
+  simp only [mk_valid y 1 1 v0, int_succ, mk_valid (y + 1) 1 1 v1, if_true, Int.toNat_natCast]
+  have hd : addDelta ⟨⟨y + 1, 1, 1⟩, 0⟩ 0 0 (-1) = some ⟨⟨y, 12, 31⟩, 0⟩ := by
+    rw [addDelta_days _ v1]
+    unfold DateUtils.addDays
+    have hs : (⟨y + 1, 1, 1⟩ : Date).addDays (-1) = some ⟨y, 12, 31⟩ := by
+      have hsome := Date.addDays_isSome ⟨y + 1, 1, 1⟩ (-1) (by have := dec31_succ y h1; have := ord_range _ vd; omega)
+        (by have := ord_range _ v1; omega)
+      cases hq : (⟨y + 1, 1, 1⟩ : Date).addDays (-1) with
+      | none => simp [hq] at hsome
+      | some r =>
+        have sp := Date.addDays_spec _ v1 (-1) r hq
+        have := dec31_succ y h1
+        rw [date_eq_of_ord r ⟨y, 12, 31⟩ sp.1 vd (by omega)]
+    simp [hs]
+  simp [hd, ofOpt]
+
 end RTV.Periods2
